@@ -906,6 +906,34 @@ def transitive_writers(prog, clsinfo, fields):
     return direct
 
 
+def transitive_methods(clsinfo, does, resolve=None):
+    """Names of the methods of the class that perform an effect themselves (`does(FuncInfo)`) or through a chain
+    of calls to methods of the same object that are *executed* by them: calls inside nested defs / lambdas run
+    later (a timer callback, a done-callback) and method values handed on (`functools.partial(self.m, ..)`,
+    `call_later(t, self.m)`) are not calls.  `resolve(FuncInfo, call) -> method name | None` names the callee
+    (default: `self.<m>(..)`)."""
+    if resolve is None:
+        def resolve(fi, c):
+            f = c.func
+            if isinstance(f, ast.Attribute) and isinstance(f.value, ast.Name) and f.value.id == "self":
+                return f.attr
+            return None
+    direct = set()
+    callsof = {}
+    for name, fi in clsinfo.methods.items():
+        if does(fi):
+            direct.add(name)
+        callsof[name] = {m for m in (resolve(fi, c) for c in calls_in(fi.node)) if m is not None}
+    changed = True
+    while changed:
+        changed = False
+        for name, cs in callsof.items():
+            if name not in direct and cs & direct:
+                direct.add(name)
+                changed = True
+    return direct
+
+
 class SiteFacts:
     """For every path of the path model through a site: the branch outcomes still valid at the site (in terms of
     parameters and state, with locals replaced by their definitions on that path)."""
